@@ -421,3 +421,531 @@ Proof.
   cbn [node_of flatten_node]. rewrite gflatten_tree_GG. unfold gflatten.
   induction IH as [|y cs Hy _ IHcs]; [reflexivity|]. cbn [map flat_map]. now rewrite Hy, IHcs.
 Qed.
+
+(* ---------- soundness: declared children ---------- *)
+Lemma last_cons {B} (a : B) l d : last (a :: l) d = last l a.
+Proof.
+  revert a d; induction l as [|b l IH]; intros a d; [reflexivity|].
+  change (last (a :: b :: l) d) with (last (b :: l) d). rewrite (IH b d). symmetry. apply IH.
+Qed.
+
+Lemma nth_error_update_nth {B} (g : B -> B) : forall i (l : list B) y,
+  nth_error l i = Some y -> nth_error (update_nth i g l) i = Some (g y).
+Proof. induction i as [|i IH]; intros [|x l] y H; cbn in *; try discriminate; [congruence | now apply IH]. Qed.
+
+Lemma Forall_update_nth {B} (P : B -> Prop) (g : B -> B) : forall i (l : list B),
+  Forall P l -> (forall y, nth_error l i = Some y -> P y -> P (g y)) -> Forall P (update_nth i g l).
+Proof.
+  induction i as [|i IH]; intros l H Hg; destruct l as [|x l]; cbn [update_nth];
+    [constructor | | constructor |].
+  - inversion H; subst. constructor; [apply (Hg x); [reflexivity | assumption] | assumption].
+  - inversion H; subst. constructor; [assumption|]. apply IH; [assumption|].
+    intros y Hy. now apply (Hg y).
+Qed.
+
+Section Sound.
+Variable t : tables.
+
+(* (n, cr) is a child of kind k listed by the reference pr *)
+Definition declared (pr : sref) (k : kind) (n : str) (cr : sref) : Prop :=
+  exists rows x, rows_of t pr = Ok rows /\ In x rows /\ row_name_kind x = Some (k, n) /\ row_ref t x = Ok cr.
+
+(* a path of declared groups below r *)
+Fixpoint chain (r : sref) (ex : list (str * sref)) : Prop :=
+  match ex with
+  | [] => True
+  | (g, gr) :: rest => declared r GRP g gr /\ chain gr rest
+  end.
+Definition last_ref (r : sref) (ex : list (str * sref)) : sref := last (map snd ex) r.
+
+Lemma last_ref_cons r g gr ex : last_ref r ((g, gr) :: ex) = last_ref gr ex.
+Proof. unfold last_ref. cbn [map snd]. apply last_cons. Qed.
+
+Lemma chain_app r ex1 : forall ex2, chain r ex1 -> chain (last_ref r ex1) ex2 -> chain r (ex1 ++ ex2).
+Proof.
+  revert r; induction ex1 as [|[g gr] ex1 IH]; intros r ex2 H1 H2; [exact H2|].
+  destruct H1 as [Hd H1]. rewrite last_ref_cons in H2. cbn [app chain]. split; [exact Hd | now apply IH].
+Qed.
+
+Lemma last_ref_app r ex1 ex2 : last_ref r (ex1 ++ ex2) = last_ref (last_ref r ex1) ex2.
+Proof.
+  revert r; induction ex1 as [|[g gr] ex1 IH]; intros r; [reflexivity|].
+  cbn [app]. rewrite !last_ref_cons. apply IH.
+Qed.
+
+Lemma scan_rows_spec name rows : forall acc hit gs,
+  scan_rows t name rows acc = Ok (hit, gs) ->
+  (forall sr, hit = Some sr ->
+     exists x, In x rows /\ row_name_kind x = Some (SEG, name) /\ row_ref t x = Ok sr) /\
+  (forall x, In x gs -> In x acc \/ (In x rows /\ exists g, row_name_kind x = Some (GRP, g))).
+Proof.
+  induction rows as [|x rows IH]; intros acc hit gs H; cbn [scan_rows] in H.
+  - injection H as <- <-. split; [discriminate|]. intros x Hx. left. now apply in_rev.
+  - destruct (row_name_kind x) as [[k n]|] eqn:Ek; [|discriminate]. destruct k.
+    + destruct (streqb n name) eqn:En.
+      * apply streqb_eq in En. subst n. inv_bind H.
+        assert (E : (hit, gs) = (None, []) \/ (hit, gs) = (Some a, [])).
+        { destruct a; injection H as <- <-; auto. }
+        destruct E as [E|E]; injection E as -> ->; (split; [|intros ? []]).
+        -- discriminate.
+        -- intros sr Hs. injection Hs as <-. exists x. repeat split; [now left | assumption | assumption].
+      * destruct (IH _ _ _ H) as [H1 H2]. split.
+        -- intros sr Hs. destruct (H1 sr Hs) as (y & ? & ? & ?). exists y. repeat split; auto. now right.
+        -- intros y Hy. destruct (H2 y Hy) as [?|[? ?]]; [now left | right; split; [now right | assumption]].
+    + destruct (IH _ _ _ H) as [H1 H2]. split.
+      * intros sr Hs. destruct (H1 sr Hs) as (y & ? & ? & ?). exists y. repeat split; auto. now right.
+      * intros y Hy. destruct (H2 y Hy) as [[<-|?]|[? ?]].
+        -- right. split; [now left | eauto].
+        -- now left.
+        -- right. split; [now right | assumption].
+    + destruct (IH _ _ _ H) as [H1 H2]. split.
+      * intros sr Hs. destruct (H1 sr Hs) as (y & ? & ? & ?). exists y. repeat split; auto. now right.
+      * intros y Hy. destruct (H2 y Hy) as [?|[? ?]]; [now left | right; split; [now right | assumption]].
+    + destruct (IH _ _ _ H) as [H1 H2]. split.
+      * intros sr Hs. destruct (H1 sr Hs) as (y & ? & ? & ?). exists y. repeat split; auto. now right.
+      * intros y Hy. destruct (H2 y Hy) as [?|[? ?]]; [now left | right; split; [now right | assumption]].
+Qed.
+
+Lemma try_groups_spec rec gs : forall sr ex,
+  try_groups t rec gs = Ok (Some (sr, ex)) ->
+  exists x k g gr ex', In x gs /\ row_name_kind x = Some (k, g) /\ row_ref t x = Ok gr /\
+                       rec gr = Ok (Some (sr, ex')) /\ ex = (g, gr) :: ex'.
+Proof.
+  induction gs as [|x gs IH]; intros sr ex H; cbn [try_groups] in H; [discriminate|].
+  destruct (row_name_kind x) as [[k g]|] eqn:Ek; [|discriminate].
+  inv_bind H. rename a into gr. inv_bind H. destruct a as [[sr' ex']|].
+  - injection H as <- <-. exists x, k, g, gr, ex'. repeat split; auto. now left.
+  - destruct (IH _ _ H) as (y & k' & g' & gr' & ex'' & ? & ? & ? & ? & ?).
+    exists y, k', g', gr', ex''. repeat split; auto. now right.
+Qed.
+
+(* what the search returns is a path of declared groups ending in a declared segment *)
+Lemma search_sound fuel : forall name r sr ex,
+  search t fuel name r = Ok (Some (sr, ex)) -> chain r ex /\ declared (last_ref r ex) SEG name sr.
+Proof.
+  induction fuel as [|f IH]; intros name r sr ex H; cbn [search] in H; [discriminate|].
+  inv_bind H. rename a into rows. inv_bind H. destruct a as [hit groups].
+  destruct (scan_rows_spec _ _ _ _ _ Ha0) as [H1 H2]. destruct hit as [sr'|].
+  - injection H as <- <-. split; [exact I|]. destruct (H1 sr' eq_refl) as (x & ? & ? & ?).
+    exists rows, x. auto.
+  - destruct (try_groups_spec _ _ _ _ H) as (x & k & g & gr & ex' & Hin & Hk & Hr & Hrec & ->).
+    destruct (H2 x Hin) as [[]|[Hin' (g' & Hk')]]. rewrite Hk in Hk'. injection Hk' as -> <-.
+    destruct (IH _ _ _ _ Hrec) as [Hc Hd]. split.
+    + split; [exists rows, x; auto | exact Hc].
+    + now rewrite last_ref_cons.
+Qed.
+End Sound.
+
+(* ---------- the loop only attaches declared children ---------- *)
+Section SoundLoop.
+Variable t : tables.
+Variable X A : Type.
+Variable raw : X -> str.
+Variable mkseg : X -> option sref -> result A.
+Variable nm : A -> str.
+Variable admission : str * sref * structure -> list str -> str -> result unit.
+Variable root : sref.
+
+Notation gstate := (gstate A).
+Notation cur_group := (@cur_group A).
+Notation add_child := (add_child A nm admission).
+Notation open_group := (open_group t A nm admission).
+Notation open_groups := (open_groups t A nm admission).
+Notation reopen_group := (reopen_group t A nm admission).
+Notation place := (place X A mkseg nm admission).
+Notation after_found := (after_found t X A raw mkseg nm admission root).
+Notation attempts := (attempts t X A raw mkseg nm admission root).
+Notation step := (step t X A raw mkseg nm admission root).
+Notation run := (run t X A raw mkseg nm admission root).
+Notation sspine := (st_spine A).
+Notation sclosed := (st_closed A).
+
+(* the group row named g is the group table's entry of that name, and the name is upper case
+   (Group() upper-cases it) *)
+Definition good (g : str) (gr : sref) : Prop := slookup g (t_groups t) = Some gr /\ upper g = g.
+(* table hypothesis: every group reachable from r is `good` (decided per version by tab_ok) *)
+Definition groups_by_name (r : sref) : Prop :=
+  forall ex g gr, chain t r ex -> declared t (last_ref r ex) GRP g gr -> good g gr.
+Hypothesis Htab : groups_by_name root.
+
+Definition some_e (p : str * sref) : entry := (Some (fst p), snd p).
+
+Lemma chain_good ex : forall r, groups_by_name r -> chain t r ex -> Forall (fun p => good (fst p) (snd p)) ex.
+Proof.
+  induction ex as [|[g gr] ex IH]; intros r H Hc; [constructor|]. destruct Hc as [Hd Hc]. constructor.
+  - exact (H [] g gr I Hd).
+  - apply (IH gr); [|exact Hc]. intros ex' g' gr' Hc' Hd'.
+    apply (H ((g, gr) :: ex') g' gr'); [split; assumption | now rewrite last_ref_cons].
+Qed.
+
+Lemma chain_nth ex : forall r j g gr, chain t r ex -> nth_error ex j = Some (g, gr) ->
+  chain t gr (skipn (S j) ex) /\ last_ref gr (skipn (S j) ex) = last_ref r ex.
+Proof.
+  induction ex as [|[g0 gr0] ex IH]; intros r j g gr Hc Hn; [destruct j; discriminate|].
+  destruct Hc as [Hd Hc]. rewrite last_ref_cons. destruct j as [|j].
+  - cbn in Hn. injection Hn as <- <-. cbn [skipn]. split; [exact Hc | reflexivity].
+  - cbn in Hn. cbn [skipn]. apply (IH gr0 j g gr); assumption.
+Qed.
+
+Lemma chain_removelast ex : forall r, chain t r ex -> chain t r (removelast ex).
+Proof.
+  induction ex as [|[g gr] ex IH]; intros r Hc; [exact I|]. destruct Hc as [Hd Hc].
+  destruct ex as [|p ex]; [exact I|]. change (removelast ((g, gr) :: p :: ex)) with ((g, gr) :: removelast (p :: ex)).
+  split; [exact Hd | now apply IH].
+Qed.
+
+(* soundness of a tree below a parent whose reference is pr *)
+Fixpoint sound_tree (pr : sref) (x : gtree A) : Prop :=
+  match x with
+  | GS a None => True
+  | GS a (Some sr) => exists i, mkseg i (Some sr) = Ok a /\ declared t pr SEG (raw i) sr
+  | GG g r st cs =>
+      (declared t pr GRP g r /\ good g r) /\ parse_structure t r = Ok st /\
+      (fix all (l : list (gtree A)) : Prop :=
+         match l with [] => True | y :: rest => sound_tree r y /\ all rest end) cs
+  end.
+Lemma sound_tree_GG pr g r st cs :
+  sound_tree pr (GG g r st cs) <->
+  (declared t pr GRP g r /\ good g r) /\ parse_structure t r = Ok st /\ Forall (sound_tree r) cs.
+Proof.
+  cbn [sound_tree].
+  assert (E : forall l : list (gtree A),
+             (fix all (l : list (gtree A)) : Prop :=
+                match l with [] => True | y :: rest => sound_tree r y /\ all rest end) l
+             <-> Forall (sound_tree r) l).
+  { induction l as [|y l IH]; split; intros H.
+    - constructor.
+    - exact I.
+    - destruct H as [H1 H2]. constructor; [exact H1 | now apply IH].
+    - inversion H; subst. split; [assumption | now apply IH]. }
+  rewrite E. reflexivity.
+Qed.
+
+(* the reference of the node a path points at (pr for the empty path) *)
+Fixpoint ref_at (pr : sref) (p : list nat) (f : gforest A) : option sref :=
+  match p with
+  | [] => Some pr
+  | i :: p' => match nth_error f i with
+               | Some (GG _ r _ cs) => ref_at r p' cs
+               | _ => None
+               end
+  end.
+
+Lemma append_sound p : forall pr f x r, Forall (sound_tree pr) f -> ref_at pr p f = Some r ->
+  sound_tree r x -> Forall (sound_tree pr) (append_at p x f).
+Proof.
+  induction p as [|i p IH]; intros pr f x r Hf Hr Hx.
+  - cbn in Hr. injection Hr as <-. cbn [append_at]. apply Forall_app. split; [exact Hf | now constructor].
+  - cbn [ref_at] in Hr. cbn [append_at]. apply Forall_update_nth; [exact Hf|].
+    intros y Hy Hs. rewrite Hy in Hr. destruct y as [a sr | g r0 st cs]; [exact Hs|].
+    apply sound_tree_GG in Hs. destruct Hs as (H1 & H2 & H3). apply sound_tree_GG.
+    split; [exact H1|]. split; [exact H2|]. now apply (IH r0 cs x r).
+Qed.
+
+Lemma group_at_sound p : forall pr f n r st cs, Forall (sound_tree pr) f ->
+  group_at p f = Some (n, r, st, cs) ->
+  ref_at pr p f = Some r /\
+  exists pr', ref_at pr (removelast p) f = Some pr' /\ sound_tree pr' (GG n r st cs).
+Proof.
+  induction p as [|i p IH]; intros pr f n r st cs Hf Hg; [discriminate|].
+  destruct p as [|j p].
+  - cbn [group_at] in Hg. destruct (nth_error f i) as [[a sr | g r0 st0 cs0]|] eqn:En; try discriminate.
+    injection Hg as -> -> -> ->. cbn [ref_at]. rewrite En. split; [reflexivity|].
+    exists pr. split; [reflexivity|]. apply nth_error_In in En.
+    now apply (proj1 (Forall_forall _ _) Hf) in En.
+  - change (group_at (i :: j :: p) f) with
+      (match nth_error f i with Some (GG _ _ _ cs0) => group_at (j :: p) cs0 | _ => None end) in Hg.
+    destruct (nth_error f i) as [[a sr | g r0 st0 cs0]|] eqn:En; try discriminate.
+    assert (Hs : Forall (sound_tree r0) cs0).
+    { apply nth_error_In in En. apply (proj1 (Forall_forall _ _) Hf) in En.
+      apply sound_tree_GG in En. tauto. }
+    destruct (IH r0 cs0 n r st cs Hs Hg) as (H1 & pr' & H2 & H3).
+    change (removelast (i :: j :: p)) with (i :: removelast (j :: p)).
+    cbn [ref_at]. rewrite En. split; [exact H1|]. exists pr'. split; assumption.
+Qed.
+
+Lemma ref_at_append_group p : forall pr f cs0 r0 n r st,
+  children_at p f = Some cs0 -> ref_at pr p f = Some r0 ->
+  ref_at pr (p ++ [length cs0]) (append_at p (GG n r st []) f) = Some r.
+Proof.
+  induction p as [|i p IH]; intros pr f cs0 r0 n r st Hc Hr.
+  - cbn in Hc. injection Hc as <-. cbn [app append_at ref_at]. now rewrite nth_error_snoc.
+  - cbn [children_at] in Hc. cbn [ref_at] in Hr.
+    destruct (nth_error f i) as [[a sr | g r1 st1 cs1]|] eqn:En; try discriminate.
+    cbn [app append_at ref_at]. rewrite (nth_error_update_nth _ _ _ _ En). now apply (IH r1 cs1 cs0 r0).
+Qed.
+
+Lemma spine_ref_at p : forall pr f, spine A p f -> exists cr, ref_at pr p f = Some cr.
+Proof.
+  induction p as [|i p IH]; intros pr f H; [now exists pr|].
+  destruct H as (pre & n & r & st & cs & -> & -> & _ & Hs). cbn [ref_at]. rewrite nth_error_snoc.
+  now apply IH.
+Qed.
+
+(* forest sound, and cr is the reference of the current parent *)
+Definition sinv (s : gstate) (cr : sref) : Prop :=
+  Forall (sound_tree root) (g_forest s) /\ ref_at root (g_path s) (g_forest s) = Some cr.
+
+Lemma add_child_sound s x s' cr : sinv s cr -> sound_tree cr x -> add_child s x = Ok s' ->
+  Forall (sound_tree root) (g_forest s').
+Proof.
+  intros [Hf Hr] Hx H. destruct (add_child_eq _ _ _ _ _ _ H) as (_ & _ & ->).
+  now apply (append_sound _ root _ x cr).
+Qed.
+
+Lemma open_group_sound s n r s' cr : sspine s -> sinv s cr ->
+  declared t cr GRP n r -> good n r -> open_group s n r = Ok s' -> sinv s' r.
+Proof.
+  intros Hsp [Hf Hr] Hd Hg H. unfold Groups.open_group in H. inv_bind H. rename a into st.
+  inv_bind H. rename a into c. inv_bind H. rename a into s1. injection H as <-.
+  assert (Eu : upper n = n) by apply Hg.
+  assert (Hx : sound_tree cr (GG (upper n) r st [])).
+  { rewrite Eu. apply sound_tree_GG. repeat split; try assumption; try apply Hg. constructor. }
+  destruct (add_child_eq _ _ _ _ _ _ Ha1) as (E1 & E2 & E3).
+  destruct (cur_group_children _ s c Hsp Ha0) as (cs & Hc & Hm).
+  assert (El : match c with Some (_, _, _, cs0) => length cs0 | None => length (g_forest s) end = length cs).
+  { destruct c as [[[[? ?] ?] cs']|]; [now destruct Hm as [-> _] | now destruct Hm as [_ ->]]. }
+  split; cbn [g_path g_forest].
+  - rewrite E3. now apply (append_sound _ root _ _ cr).
+  - rewrite E2, E3, El. now apply (ref_at_append_group _ root _ cs cr).
+Qed.
+
+Lemma open_groups_sound ex : forall s cr s', sspine s -> sinv s cr -> chain t cr ex ->
+  Forall (fun p => good (fst p) (snd p)) ex -> open_groups s (map some_e ex) = Ok s' ->
+  sinv s' (last_ref cr ex).
+Proof.
+  induction ex as [|[g gr] ex IH]; intros s cr s' Hsp Hi Hc Hg H.
+  - cbn in H. injection H as <-. exact Hi.
+  - cbn [map some_e fst snd Groups.open_groups] in H. inv_bind H. rename a into s1.
+    destruct Hc as [Hd Hc]. inversion Hg; subst.
+    assert (H1 : sinv s1 gr) by (apply (open_group_sound s g gr s1 cr); assumption).
+    destruct (open_group_spine _ _ _ _ _ _ _ _ Hsp Ha) as (Hsp1 & _).
+    rewrite last_ref_cons. now apply (IH s1 gr).
+Qed.
+
+Lemma place_sound x sr s s' cr : sinv s cr ->
+  match sr with Some r => declared t cr SEG (raw x) r | None => True end ->
+  place x sr s = Ok s' -> Forall (sound_tree root) (g_forest s').
+Proof.
+  intros Hi Hd H. unfold Groups.place in H. inv_bind H.
+  apply (add_child_sound _ _ _ cr Hi) in H; [exact H|].
+  destruct sr as [r|]; [|exact I]. cbn [sound_tree]. exists x. split; assumption.
+Qed.
+
+(* the stack: the bottom entry, then a path of declared groups *)
+Definition stack_of (ex : list (str * sref)) : list entry := (None, root) :: map some_e ex.
+
+Lemma last_entry_stack ex top : last_entry (stack_of ex) = Ok top ->
+  snd top = last_ref root ex /\
+  (ex = [] /\ fst top = None \/ exists ex' g, ex = ex' ++ [(g, snd top)] /\ fst top = Some g).
+Proof.
+  unfold last_entry, stack_of. destruct (list_snoc_cases ex) as [->|(ex' & [g gr] & ->)].
+  - cbn. intros H. injection H as <-. split; [reflexivity | left; split; reflexivity].
+  - rewrite map_app. cbn [map]. change ((None, root) :: map some_e ex' ++ [some_e (g, gr)])
+      with (((None, root) :: map some_e ex') ++ [some_e (g, gr)]).
+    rewrite rev_app_distr. cbn. intros H. injection H as <-. cbn [snd fst some_e]. split.
+    + rewrite last_ref_app. reflexivity.
+    + right. exists ex', g. split; reflexivity.
+Qed.
+
+Lemma index_of_nth x l : forall i0 i, index_of x l i0 = Some i ->
+  exists j y, i = i0 + j /\ nth_error l j = Some y /\ entry_eqb y x = true.
+Proof.
+  induction l as [|y l IH]; intros i0 i H; cbn [index_of] in H; [discriminate|].
+  destruct (entry_eqb y x) eqn:E.
+  - injection H as <-. exists 0, y. repeat split; [lia | exact E].
+  - destruct (IH _ _ H) as (j & z & -> & Hn & Hz). exists (S j), z. repeat split; [lia | exact Hn | exact Hz].
+Qed.
+
+Lemma opt_eqb_eq a b : opt_eqb a b = true -> a = b.
+Proof. destruct a, b; cbn; try discriminate; [|reflexivity]. intros H. now rewrite (streqb_eq _ _ H). Qed.
+
+Lemma after_found_sound x sr s s' ex : sclosed s -> g_stack s = stack_of ex -> chain t root ex ->
+  Forall (sound_tree root) (g_forest s) -> declared t (last_ref root ex) SEG (raw x) sr ->
+  after_found x sr s = Ok s' ->
+  Forall (sound_tree root) (g_forest s') /\ g_stack s' = g_stack s.
+Proof.
+  intros Hc Hst Hch Hf Hd H. pose proof (chain_good ex root Htab Hch) as Hgood.
+  unfold Groups.after_found in H. inv_bind H. rename a into c. inv_bind H. rename a into top.
+  inv_bind H. rename a into s2. rewrite Hst in Ha0.
+  destruct (last_entry_stack _ _ Ha0) as (Etop & Hcase).
+  assert (Hsp : sspine s) by apply Hc.
+  assert (H2 : sspine s2 /\ sinv s2 (last_ref root ex) /\ g_stack s2 = g_stack s).
+  { destruct c as [[[[n r] st] cs]|].
+    - (* inside a group *)
+      assert (Hp : g_path s <> []).
+      { unfold Groups.cur_group in Ha. destruct (g_path s); [discriminate | discriminate]. }
+      assert (Hga : group_at (g_path s) (g_forest s) = Some (n, r, st, cs)).
+      { unfold Groups.cur_group in Ha. destruct (g_path s) as [|i p]; [congruence|].
+        destruct (group_at (i :: p) (g_forest s)); [now injection Ha as -> | discriminate]. }
+      destruct (group_at_sound _ root _ _ _ _ _ Hf Hga) as (Hr & pr' & Hr' & Hnode).
+      apply sound_tree_GG in Hnode. destruct Hnode as ((Hdn & Hgn) & Hps & Hcs).
+      destruct (negb (opt_eqb (fst top) (Some n))) eqn:Eneq.
+      + destruct (index_of (Some n, r) (g_stack s) 0) as [i|] eqn:Ei; [|discriminate].
+        destruct (index_of_nth _ _ _ _ Ei) as (j & y & -> & Hn & Hy). rewrite Hst in Hn.
+        unfold entry_eqb in Hy. apply andb_prop in Hy. destruct Hy as [Hy _]. apply opt_eqb_eq in Hy.
+        destruct j as [|j]; [cbn in Hn; injection Hn as <-; discriminate|].
+        cbn [stack_of nth_error] in Hn. rewrite nth_error_map in Hn.
+        destruct (nth_error ex j) as [[g gr]|] eqn:Ej; [|discriminate]. cbn in Hn. injection Hn as <-.
+        cbn in Hy. injection Hy as ->.
+        assert (Hgg : good n gr).
+        { apply nth_error_In in Ej. exact (proj1 (Forall_forall _ _) Hgood _ Ej). }
+        assert (gr = r) by (destruct Hgg as [E1 _], Hgn as [E2 _]; congruence). subst gr.
+        destruct (chain_nth ex root j n r Hch Ej) as (Hch' & El).
+        rewrite Hst in Ha1. change (skipn (S (0 + S j)) (stack_of ex)) with (skipn (S j) (map some_e ex)) in Ha1.
+        rewrite skipn_map in Ha1.
+        assert (Hg' : Forall (fun p => good (fst p) (snd p)) (skipn (S j) ex)).
+        { apply Forall_forall. intros p Hp'. apply (proj1 (Forall_forall _ _) Hgood).
+          rewrite <- (firstn_skipn (S j) ex). apply in_or_app. now right. }
+        pose proof (open_groups_sound _ s r s2 Hsp (conj Hf Hr) Hch' Hg' Ha1) as Hs2.
+        rewrite El in Hs2. destruct (open_groups_spine t A nm admission _ _ _ Hsp Ha1) as (? & _ & ?). auto.
+      + apply negb_false_iff in Eneq. apply opt_eqb_eq in Eneq.
+        destruct Hcase as [[_ E]|(ex' & g & Eex & E)]; [congruence|].
+        rewrite E in Eneq. injection Eneq as ->.
+        assert (Hgg : good n (snd top)).
+        { apply (proj1 (Forall_forall _ _) Hgood (n, snd top)). rewrite Eex. apply in_or_app. right. now left. }
+        assert (snd top = r) by (destruct Hgg as [E1 _], Hgn as [E2 _]; congruence).
+        assert (Er : last_ref root ex = r) by congruence.
+        destruct (smem (raw x) (map (child_name nm) cs)).
+        * destruct (repetitions_of st (raw x)) as [[mn mx]|]; [|discriminate].
+          destruct (mx =? 1)%Z.
+          -- unfold Groups.reopen_group in Ha1. rewrite Ha in Ha1. cbn [bind] in Ha1.
+             set (up := mk_gstate (g_stack s) (removelast (g_path s)) (g_forest s)) in *.
+             assert (Hup : sspine up).
+             { unfold st_spine, up. cbn [g_path g_forest].
+               apply (closed_removelast A (g_path s) (g_forest s) Hc). }
+             pose proof (open_group_sound up n r s2 pr' Hup (conj Hf Hr') Hdn Hgn Ha1) as Hs2.
+             destruct (open_group_spine t A nm admission _ _ _ _ Hup Ha1) as (? & _ & ?). rewrite Er. auto.
+          -- injection Ha1 as <-. rewrite Er. repeat split; assumption.
+        * injection Ha1 as <-. rewrite Er. repeat split; assumption.
+    - (* at top level *)
+      assert (Hp : g_path s = []).
+      { unfold Groups.cur_group in Ha. destruct (g_path s) as [|i p]; [reflexivity|].
+        destruct (group_at (i :: p) (g_forest s)); discriminate. }
+      assert (Hr : ref_at root (g_path s) (g_forest s) = Some root) by now rewrite Hp.
+      destruct (opt_is_some (fst top)) eqn:Etn.
+      + destruct (index_of (None, root) (g_stack s) 0) as [i|] eqn:Ei; [|discriminate].
+        destruct (index_of_nth _ _ _ _ Ei) as (j & y & -> & Hn & Hy). rewrite Hst in Hn.
+        unfold entry_eqb in Hy. apply andb_prop in Hy. destruct Hy as [Hy _]. apply opt_eqb_eq in Hy.
+        destruct j as [|j].
+        * rewrite Hst in Ha1. change (skipn (S (0 + 0)) (stack_of ex)) with (map some_e ex) in Ha1.
+          pose proof (open_groups_sound _ s root s2 Hsp (conj Hf Hr) Hch Hgood Ha1) as Hs2.
+          destruct (open_groups_spine t A nm admission _ _ _ Hsp Ha1) as (? & _ & ?). auto.
+        * cbn [stack_of nth_error] in Hn. rewrite nth_error_map in Hn.
+          destruct (nth_error ex j) as [[g gr]|]; [|discriminate]. cbn in Hn. injection Hn as <-. discriminate.
+      + injection Ha1 as <-. destruct Hcase as [[-> _]|(ex' & g & _ & E)]; [|rewrite E in Etn; discriminate].
+        repeat split; assumption. }
+  destruct H2 as (Hsp2 & Hi2 & Hs2). split.
+  - apply (place_sound x (Some sr) s2 s' _ Hi2 Hd H).
+  - unfold Groups.place in H. inv_bind H. destruct (add_child_eq _ _ _ _ _ _ H) as (E & _). congruence.
+Qed.
+
+(* the stack between iterations: empty (only after the bottom entry was popped: the next access
+   raises) or the bottom entry followed by a path of declared groups *)
+Definition stack_ok (stk : list entry) : Prop :=
+  stk = [] \/ exists ex, stk = stack_of ex /\ chain t root ex.
+
+Lemma attempts_sound n x : forall s s', sclosed s -> stack_ok (g_stack s) ->
+  Forall (sound_tree root) (g_forest s) -> attempts n x s = Ok (Some s') ->
+  Forall (sound_tree root) (g_forest s') /\ stack_ok (g_stack s').
+Proof.
+  induction n as [|n IH]; intros s s' Hc Hk Hf H; cbn [Groups.attempts] in H; [discriminate|].
+  inv_bind H. rename a into top. destruct Hk as [Hk|(ex & Hk & Hch)]; [rewrite Hk in Ha; discriminate|].
+  inv_bind H. destruct a as [[sr extra]|].
+  - inv_bind H. rename a into s1. injection H as <-.
+    rewrite Hk in Ha. destruct (last_entry_stack _ _ Ha) as (Etop & _). rewrite Etop in Ha0.
+    destruct (search_sound _ _ _ _ _ _ Ha0) as (Hce & Hd).
+    assert (Est : g_stack s ++ map (fun p : str * sref => (Some (fst p), snd p)) extra = stack_of (ex ++ extra)).
+    { rewrite Hk. unfold stack_of. rewrite map_app. reflexivity. }
+    rewrite Est in Ha1.
+    destruct (after_found_sound x sr (mk_gstate (stack_of (ex ++ extra)) (g_path s) (g_forest s)) s1 (ex ++ extra))
+      as (H1 & H2); try assumption; try reflexivity.
+    + now apply chain_app.
+    + now rewrite last_ref_app.
+    + split; [exact H1|]. right. exists (ex ++ extra). split; [exact H2 | now apply chain_app].
+  - destruct (g_path s) eqn:Ep.
+    + apply (IH s s'); try assumption. right. eauto.
+    + apply IH in H; [exact H | | | exact Hf].
+      * unfold st_closed. cbn [g_path g_forest]. rewrite <- Ep. now apply closed_removelast.
+      * cbn [g_stack]. rewrite Hk. unfold stack_of.
+        destruct (list_snoc_cases ex) as [->|(ex' & p & ->)]; [now left|]. right. exists ex'.
+        rewrite map_app. cbn [map].
+        change ((None, root) :: map some_e ex' ++ [some_e p]) with (((None, root) :: map some_e ex') ++ [some_e p]).
+        rewrite removelast_last. split; [reflexivity|].
+        apply chain_removelast in Hch. now rewrite removelast_last in Hch.
+Qed.
+
+Lemma step_sound s x s' : sclosed s -> stack_ok (g_stack s) -> Forall (sound_tree root) (g_forest s) ->
+  step s x = Ok s' -> Forall (sound_tree root) (g_forest s') /\ stack_ok (g_stack s').
+Proof.
+  unfold Groups.step. intros Hc Hk Hf H. inv_bind H. destruct a as [s1|].
+  - injection H as <-. now apply (attempts_sound _ _ _ _ Hc Hk Hf Ha).
+  - destruct (spine_ref_at _ root _ (proj1 Hc)) as (cr & Hr). split.
+    + now apply (place_sound x None s s' cr (conj Hf Hr) I).
+    + unfold Groups.place in H. inv_bind H. destruct (add_child_eq _ _ _ _ _ _ H) as (E & _). now rewrite E.
+Qed.
+
+Lemma run_sound xs : forall s s', sclosed s -> stack_ok (g_stack s) ->
+  Forall (sound_tree root) (g_forest s) -> run xs s = Ok s' -> Forall (sound_tree root) (g_forest s').
+Proof.
+  induction xs as [|x xs IH]; intros s s' Hc Hk Hf H; cbn [Groups.run] in H.
+  - now injection H as <-.
+  - inv_bind H. destruct (step_sound _ _ _ Hc Hk Hf Ha) as (H1 & H2).
+    destruct (step_closed _ _ _ _ _ _ _ _ _ _ _ Hc Ha) as (H3 & _). now apply (IH a s').
+Qed.
+
+(* every group of the forest is a declared GRP child of its parent's reference (the message
+   reference at top level) and carries the structure of its own reference; every segment parsed
+   with a reference is a declared SEG child, under the name it had in the input *)
+Theorem find_groups_sound xs f :
+  find_groups t X A raw mkseg nm admission root xs = Ok f -> Forall (sound_tree root) f.
+Proof.
+  unfold find_groups. intros H. inv_bind H. injection H as <-.
+  apply (run_sound xs (init_state A root) a); try assumption.
+  - split; constructor.
+  - right. exists []. split; [reflexivity | exact I].
+  - constructor.
+Qed.
+End SoundLoop.
+
+(* ---------- the table hypothesis is decidable ---------- *)
+Section TabOk.
+Variable t : tables.
+
+(* every GRP row below r is written by name (so that it IS the group table's entry), its name is
+   upper case, and the same holds below it *)
+Fixpoint tab_ok (fuel : nat) (r : sref) : bool :=
+  match fuel with
+  | O => false
+  | S f =>
+      match rows_of t r with
+      | Err _ => true
+      | Ok rows =>
+          forallb (fun x => match x with
+                            | SByName GRP g _ _ =>
+                                streqb (upper g) g &&
+                                match slookup g (t_groups t) with Some gr => tab_ok f gr | None => true end
+                            | SIn GRP _ _ _ _ => false
+                            | _ => true
+                            end) rows
+      end
+  end.
+
+Lemma tab_ok_sound fuel : forall r, tab_ok fuel r = true -> groups_by_name t r.
+Proof.
+  induction fuel as [|f IH]; intros r H; [discriminate|]. cbn [tab_ok] in H.
+  assert (Hrow : forall g gr, declared t r GRP g gr -> good t g gr /\ tab_ok f gr = true).
+  { intros g gr (rows & x & Hr & Hin & Hk & Hx). rewrite Hr in H.
+    apply (proj1 (forallb_forall _ _) H) in Hin.
+    destruct x as [k n mn mx | k n r' mn mx |]; cbn in Hk; [| |discriminate].
+    - injection Hk as -> ->. apply andb_prop in Hin. destruct Hin as [Hu Hl].
+      unfold row_ref, row_view in Hx. cbn [table_of] in Hx.
+      destruct (slookup g (t_groups t)) as [gr'|] eqn:El; [|discriminate]. cbn in Hx. injection Hx as <-.
+      split; [split; [exact El | now apply streqb_eq] | exact Hl].
+    - injection Hk as -> ->. discriminate. }
+  intros ex. revert r H Hrow. induction ex as [|[g0 gr0] ex IHex]; intros r H Hrow g gr Hc Hd.
+  - now apply Hrow.
+  - destruct Hc as [Hd0 Hc]. rewrite last_ref_cons in Hd. destruct (Hrow g0 gr0 Hd0) as [_ Hok].
+    exact (IH gr0 Hok ex g gr Hc Hd).
+Qed.
+End TabOk.
